@@ -2,12 +2,15 @@ package main
 
 import (
 	"fmt"
+	"math/big"
+	"strings"
 
 	"github.com/tuneinsight/lattigo/v6/core/rlwe"
 	"github.com/tuneinsight/lattigo/v6/multiparty"
 
 	"verif/engine"
 	"verif/lib/mp"
+	"verif/snap"
 	"verif/uni"
 )
 
@@ -20,7 +23,22 @@ type rejCase struct {
 	chain  mp.Chain
 	shapes []evkp   // alternatives per slot (for galEl: .b2 abused as the Galois element)
 	slots  []string // slot names
-	call   func(params rlwe.Parameters, P *mp.Parties, sh []evkp) error
+	call   func(params rlwe.Parameters, P *mp.Parties, sh []evkp, r *rej) error
+}
+
+// rej records, right before the judged call, a deep snapshot (contents incl. unexported fields and metadata) of the
+// receiver, the inputs and the callee. A call that refuses must leave all of them unchanged; post, when set, runs
+// after a refusal and returns what else is wrong ("" = nothing): the previously valid receiver still verifies, the
+// next legal call on the same protocol object equals the same call on a fresh object.
+type rej struct {
+	before *snap.Snapshot
+	roots  []interface{}
+	post   func() string
+}
+
+func (r *rej) watch(roots ...interface{}) {
+	r.roots = roots
+	r.before = mp.Snap(roots...)
 }
 
 func ep(params rlwe.Parameters, e evkp) rlwe.EvaluationKeyParameters {
@@ -47,29 +65,41 @@ func rlkShares(params rlwe.Parameters, P *mp.Parties, party int, e evkp) (multip
 	return pr, r1, r2
 }
 
-func evkAgg(params rlwe.Parameters, P *mp.Parties, sh []evkp) error {
+func evkAgg(params rlwe.Parameters, P *mp.Parties, sh []evkp, r *rej) error {
 	pr, a, _ := evkShare(params, P, 0, sh[0])
 	_, b, _ := evkShare(params, P, 1, sh[1])
 	out := pr.AllocateShare(ep(params, sh[2]))
+	r.watch("a", &a, "b", &b, "out", &out, "callee", &pr)
+	r.post = func() string { // the next legal call on the same object equals the same call on a fresh object
+		o1, o2 := pr.AllocateShare(ep(params, sh[0])), pr.AllocateShare(ep(params, sh[0]))
+		e1 := pr.AggregateShares(a, a, &o1)
+		e2 := multiparty.NewEvaluationKeyGenProtocol(params).AggregateShares(a, a, &o2)
+		if e1 != nil || e2 != nil || !o1.Equal(&o2.GadgetCiphertext) {
+			return fmt.Sprintf("the next legal AggregateShares on the same protocol object differs from a fresh object's (err %v / %v)", e1, e2)
+		}
+		return ""
+	}
 	return pr.AggregateShares(a, b, &out)
 }
 
-func evkGen(params rlwe.Parameters, P *mp.Parties, sh []evkp) error {
+func evkGen(params rlwe.Parameters, P *mp.Parties, sh []evkp, r *rej) error {
 	// the reference polynomials always match the share: only share vs. key shapes are "mismatched shares"
 	pr, a, crp := evkShare(params, P, 0, sh[0])
 	key := rlwe.NewEvaluationKey(params, ep(params, sh[1]))
+	r.watch("share", &a, "crp", &crp, "key", key, "callee", &pr)
 	return pr.GenEvaluationKey(a, crp, key)
 }
 
-func evkGenShare(params rlwe.Parameters, P *mp.Parties, sh []evkp) error {
+func evkGenShare(params rlwe.Parameters, P *mp.Parties, sh []evkp, r *rej) error {
 	pr := multiparty.NewEvaluationKeyGenProtocol(params)
 	crp := pr.SampleCRP(mp.CRS(0), ep(params, sh[0]))
 	s := pr.AllocateShare(ep(params, sh[1]))
+	r.watch("crp", &crp, "share", &s, "skIn", P.SK[0], "skOut", P.SK[1])
 	return pr.GenShare(P.SK[0], P.SK[1], crp, &s)
 }
 
-func rlkAgg(round int) func(params rlwe.Parameters, P *mp.Parties, sh []evkp) error {
-	return func(params rlwe.Parameters, P *mp.Parties, sh []evkp) error {
+func rlkAgg(round int) func(params rlwe.Parameters, P *mp.Parties, sh []evkp, r *rej) error {
+	return func(params rlwe.Parameters, P *mp.Parties, sh []evkp, r *rej) error {
 		pr, a1, a2 := rlkShares(params, P, 0, sh[0])
 		_, b1, b2 := rlkShares(params, P, 1, sh[1])
 		_, o1, o2 := pr.AllocateShare(ep(params, sh[2]))
@@ -82,7 +112,7 @@ func rlkAgg(round int) func(params rlwe.Parameters, P *mp.Parties, sh []evkp) er
 	}
 }
 
-func rlkGen(params rlwe.Parameters, P *mp.Parties, sh []evkp) error {
+func rlkGen(params rlwe.Parameters, P *mp.Parties, sh []evkp, r *rej) error {
 	pr, r1, _ := rlkShares(params, P, 0, sh[0])
 	_, _, r2 := rlkShares(params, P, 0, sh[1])
 	key := rlwe.NewRelinearizationKey(params, ep(params, sh[2]))
@@ -90,7 +120,7 @@ func rlkGen(params rlwe.Parameters, P *mp.Parties, sh []evkp) error {
 	return nil
 }
 
-func galAgg(params rlwe.Parameters, P *mp.Parties, sh []evkp) error {
+func galAgg(params rlwe.Parameters, P *mp.Parties, sh []evkp, r *rej) error {
 	pr := multiparty.NewGaloisKeyGenProtocol(params)
 	crp := pr.SampleCRP(mp.CRS(0))
 	var s [2]multiparty.GaloisKeyGenShare
@@ -101,7 +131,67 @@ func galAgg(params rlwe.Parameters, P *mp.Parties, sh []evkp) error {
 		}
 	}
 	out := pr.AllocateShare()
+	r.watch("a", &s[0], "b", &s[1], "out", &out, "callee", &pr)
 	return pr.AggregateShares(s[0], s[1], &out)
+}
+
+// galGenIntoValidKey: gk already holds the valid collective key of two parties for Galois element 5. A second
+// GenGaloisKey into the same gk is given a share for element 25 generated with the slot's parameters: refused when
+// they differ from the key's. The refusal must leave gk (key material and labels GaloisElement / NthRoot) untouched,
+// gk must still be a key of the ideal secret for element 5, and the protocol object must still produce the same key.
+func galGenIntoValidKey(params rlwe.Parameters, P *mp.Parties, sh []evkp, r *rej) error {
+	base := ep(params, sh[1]) // the key's parameters
+	pr := multiparty.NewGaloisKeyGenProtocol(params)
+	crpA := pr.SampleCRP(mp.CRS(0), base)
+	var aggA multiparty.GaloisKeyGenShare
+	for i := 0; i < 2; i++ {
+		s := pr.AllocateShare(base)
+		if err := pr.GenShare(P.SK[i], 5, crpA, &s); err != nil {
+			panic(fmt.Sprintf("harness: %v", err))
+		}
+		if i == 0 {
+			aggA = s
+		} else if err := pr.AggregateShares(aggA, s, &aggA); err != nil {
+			panic(fmt.Sprintf("harness: %v", err))
+		}
+	}
+	gk := rlwe.NewGaloisKey(params, base)
+	if err := pr.GenGaloisKey(aggA, crpA, gk); err != nil {
+		panic(fmt.Sprintf("harness: %v", err))
+	}
+	other := ep(params, sh[0])
+	crpB := pr.SampleCRP(mp.CRS(1), other)
+	shB := pr.AllocateShare(other)
+	if err := pr.GenShare(P.SK[0], 25, crpB, &shB); err != nil {
+		panic(fmt.Sprintf("harness: %v", err))
+	}
+	r.watch("key", gk, "share", &shB, "crp", &crpB, "callee", &pr)
+	r.post = func() string {
+		if gk.GaloisElement != 5 || gk.NthRoot != params.RingQ().NthRoot() {
+			return fmt.Sprintf("the key is now labelled (galEl=%d, nthRoot=%d)", gk.GaloisElement, gk.NthRoot)
+		}
+		sI := mp.SecretInts(params, P.Ideal)
+		nth, inv := params.RingQ().NthRoot(), uint64(1)
+		for inv*5%nth != 1 {
+			inv += 2
+		}
+		bound := new(big.Int).Mul(big.NewInt(2), mp.XeSup(params.Xe()))
+		if worst := mp.KeyRowNoise(params, &gk.GadgetCiphertext, sI, mp.RingAuto(params, sI, inv)); worst.Cmp(bound) > 0 {
+			return fmt.Sprintf("the previously valid key no longer verifies against the ideal secret (row error %v > %v)", worst, bound)
+		}
+		g1, g2 := rlwe.NewGaloisKey(params, base), rlwe.NewGaloisKey(params, base)
+		e1 := pr.GenGaloisKey(aggA, crpA, g1)
+		e2 := multiparty.NewGaloisKeyGenProtocol(params).GenGaloisKey(aggA, crpA, g2)
+		if e1 != nil || e2 != nil || !galKeyEqual(g1, g2) || !galKeyEqual(g1, gk) {
+			return fmt.Sprintf("the next legal GenGaloisKey on the same protocol object differs from a fresh object's / from the first key (err %v / %v)", e1, e2)
+		}
+		return ""
+	}
+	return pr.GenGaloisKey(shB, crpB, gk)
+}
+
+func galKeyEqual(a, b *rlwe.GaloisKey) bool {
+	return a.GaloisElement == b.GaloisElement && a.NthRoot == b.NthRoot && a.GadgetCiphertext.Equal(&b.GadgetCiphertext)
 }
 
 func rejectCases() []rejCase {
@@ -111,6 +201,7 @@ func rejectCases() []rejCase {
 	abo := []string{"a", "b", "out"}
 	return []rejCase{
 		{"gal/galEl", "C14/gal/AggregateShares/mismatch-galEl-not-rejected", mp.ChainMid, []evkp{{b2: 5}, {b2: 25}}, []string{"a", "b"}, galAgg},
+		{"gal/gen-into-valid-key", "C14/gal/GenGaloisKey/mismatch-not-rejected", mp.ChainMid, []evkp{{lqMax, lpMax, 0}, {0, lpMax, 0}, {lqMax, 0, 16}}, []string{"share", "key"}, galGenIntoValidKey},
 		{"evk/levelQ", "C14/evk/AggregateShares/mismatch-levelQ-not-rejected", mp.ChainMid, lq, abo, evkAgg},
 		{"evk/levelP", "C14/evk/AggregateShares/mismatch-levelP-not-rejected", mp.ChainMid, lp, abo, evkAgg},
 		{"evk/base2", "C14/evk/AggregateShares/mismatch-base2-not-rejected", mp.ChainMixed, b2, abo, evkAgg},
@@ -147,8 +238,10 @@ func rejectScenarios(tier string) []engine.Scenario {
 				equal = equal && sh[i] == sh[0]
 				desc += fmt.Sprintf(" %s=%+v", s, sh[i])
 			}
-			err, pan := uni.Try(func() error { return rc.call(params, P, sh) })
+			r := &rej{}
+			err, pan := uni.Try(func() error { return rc.call(params, P, sh, r) })
 			c.State(nm, desc)
+			fn := rc.sig[:strings.LastIndex(rc.sig, "/")] // C14/<proto>/<Func>
 			switch {
 			case equal && (err != nil || pan != nil):
 				c.Fail(rc.sig+"/control", "matching shapes (%s) refused: err=%v panic=%v", desc, err, pan)
@@ -164,6 +257,19 @@ func rejectScenarios(tier string) []engine.Scenario {
 			default:
 				c.Outcome(nm, "rejected")
 				c.Cover("rejected", rc.name)
+				// a refused call leaves receiver, inputs and callee as they were
+				if r.before != nil {
+					if d := mp.Changed(r.before, r.roots...); d != "" {
+						c.Fail(fn+"/refused-call-modified-its-operands", "shapes (%s): the call returned %q but changed %s", desc, err, d)
+					}
+					c.Cover("refused-call", "operands-unchanged-checked")
+				}
+				if r.post != nil {
+					if why := r.post(); why != "" {
+						c.Fail(fn+"/state-after-refused-call", "shapes (%s), after the refusal %q: %s", desc, err, why)
+					}
+					c.Cover("refused-call", "aftermath-checked")
+				}
 			}
 			c.Cover("mismatch", rc.name)
 		}})
